@@ -362,6 +362,23 @@ func foldBin(op Op, x, y uint64, w int) (uint64, bool) {
 }
 
 // Bin builds a width-preserving binary bit-vector operation.
+// pow2Log reports k when b is the constant 2^k (k >= 1) of width w <= 64.
+func pow2Log(b *Term, w int) (int, bool) {
+	if !b.IsConst() || w > 64 {
+		return 0, false
+	}
+	c := b.C & Mask(w)
+	if c < 2 || c&(c-1) != 0 {
+		return 0, false
+	}
+	k := 0
+	for c > 1 {
+		c >>= 1
+		k++
+	}
+	return k, true
+}
+
 func (p *Pool) Bin(op Op, a, b *Term) *Term {
 	if a.W != b.W || a.W == 0 {
 		panic(fmt.Sprintf("smt.Bin %s width mismatch %d %d", opNames[op], a.W, b.W))
@@ -462,6 +479,32 @@ func (p *Pool) Bin(op Op, a, b *Term) *Term {
 	case OpBvUDiv:
 		if b.IsConst() && b.C == 1 {
 			return a
+		}
+		// strength reduction: x /u 2^k = x >>u k (a divider circuit costs z3 10-60 s per query)
+		if k, ok := pow2Log(b, w); ok {
+			return p.Bin(OpBvLShr, a, p.Const(uint64(k), w))
+		}
+	case OpBvURem:
+		if k, ok := pow2Log(b, w); ok {
+			return p.Bin(OpBvAnd, a, p.Const(uint64(1)<<uint(k)-1, w))
+		}
+	case OpBvSDiv:
+		if b.IsConst() && b.C == 1 {
+			return a
+		}
+		if k, ok := pow2Log(b, w); ok && k >= 1 && k <= w-2 {
+			if a.Op == OpZExt && a.Args[0].W < w {
+				// dividend known non-negative
+				return p.Bin(OpBvLShr, a, p.Const(uint64(k), w))
+			}
+			// truncating division: (x + ((x >>s (w-1)) >>u (w-k))) >>s k
+			sign := p.Bin(OpBvAShr, a, p.Const(uint64(w-1), w))
+			bias := p.Bin(OpBvLShr, sign, p.Const(uint64(w-k), w))
+			return p.Bin(OpBvAShr, p.Bin(OpBvAdd, a, bias), p.Const(uint64(k), w))
+		}
+	case OpBvSRem:
+		if k, ok := pow2Log(b, w); ok && k >= 1 && k <= w-2 && a.Op == OpZExt && a.Args[0].W < w {
+			return p.Bin(OpBvAnd, a, p.Const(uint64(1)<<uint(k)-1, w))
 		}
 	}
 	return p.mk(&Term{Op: op, W: w, Args: []*Term{a, b}})
